@@ -397,6 +397,11 @@ def member_call(em, n, callee, obj, args, rd):
         if nm == 'erase' and len(args) == 1:
             a_ = em.E(args[0])
             return '((%s).m->present[(%s).idx] = 0)' % (a_, a_)
+        if nm == 'empty' and not args and mcn == 'M_map_strk_voidp':
+            # abstract: an arbitrary boolean that is consistent with the unit's witness key (stub declared by the unit:
+            # "empty" implies the witness key is absent)
+            em.lowerings['M-map(empty -> witness-consistent stub)'] += 1
+            return 'vstd_strmap_empty(&(%s))' % o
         if nm == 'clear' and not args:
             # an empty map: no key present (val[] of absent keys is never read); a struct assignment stays inside the map object
             return '((%s) = (struct %s){ { 0 }, { 0 } })' % (o, mcn)
